@@ -548,7 +548,13 @@ pub fn eval_corgi(p: &Program) -> Vec<Array> {
             }
             Node::Op { kind, args, post, pre } => {
                 for (h, on) in pre {
-                    if *on {
+                    // by reference (start/stop_tracking) or, for some leaves, by value: `w = w.untracked()` /
+                    // `w = w.tracked()` re-binds the variable to the same array with the flag changed
+                    let by_value = matches!(p.nodes[*h], Node::Leaf { .. }) && (*h + i) % 3 == 0;
+                    if by_value {
+                        let a = v[*h].clone();
+                        v[*h] = if *on { a.tracked() } else { a.untracked() };
+                    } else if *on {
                         v[*h].start_tracking();
                     } else {
                         v[*h].stop_tracking();
